@@ -13,8 +13,8 @@
    more permissive than the client about H2/H3. *)
 EXTENDS Integers, Sequences, TLC, Json, IOUtils
 Rec == ndJsonDeserialize(IOEnv.TRACE)
-VARIABLES l, run, cfg, viol, hits, nruns, cfgd, leaseEnd, reqXid, reqSent, goodAck, lastSol, rebound
-vars == <<l, run, cfg, viol, hits, nruns, cfgd, leaseEnd, reqXid, reqSent, goodAck, lastSol, rebound>>
+VARIABLES l, run, cfg, viol, hits, nruns, cfgd, leaseEnd, reqXid, reqSent, goodAck, lastSol, rebound, renewTried, strictLease
+vars == <<l, run, cfg, viol, hits, nruns, cfgd, leaseEnd, reqXid, reqSent, goodAck, lastSol, rebound, renewTried, strictLease>>
 Rules == {"H1", "H2", "H3", "H4", "H5", "Q2", "PANIC"}
 Add(v, x) == IF Len(v) >= 24 THEN v ELSE Append(v, x)
 RECURSIVE AddAll(_, _)
@@ -23,18 +23,25 @@ Flush == viol = <<>> \/ PrintT(<<"RUNVIOL", ToJson([run |-> run, viol |-> viol])
 Min(a, b) == IF a < b THEN a ELSE b
 Init == /\ l = 1 /\ run = -1 /\ cfg = [x |-> 0] /\ viol = <<>> /\ hits = [r \in Rules |-> 0] /\ nruns = 0
         /\ cfgd = FALSE /\ leaseEnd = -1 /\ reqXid = <<-1, -1>> /\ reqSent = FALSE /\ goodAck = FALSE /\ lastSol = 0 /\ rebound = FALSE
+        /\ renewTried = FALSE /\ strictLease = FALSE
 IsDhcp(m) == m.k = "dhcp"
 ArpOut(out) == \E i \in 1..Len(out) : out[i].k = "arp"
 LeaseMs(m) == LET s == IF m.lease = -1 THEN 120 ELSE m.lease
                   c == IF cfg.max_lease = -1 THEN s ELSE Min(s, cfg.max_lease)
               IN Min(c, 1000000) * 1000
 ValidAck(m, xid, sent) == IsDhcp(m) /\ m.type = 5 /\ sent /\ <<m.xid, m.xidhi>> = xid /\ m.ch_ok /\ m.sid /\ m.mask_ok /\ m.yi_uni /\ m.cs /\ m.wf
+\* the lease parameters of m put T1 strictly before T2: no T1 / T2 options (defaults 1/2 and 7/8 of the lease) or both present
+\* and ordered below the lease; anything else is left to the client's own repair rules and not judged
+Strict(m) == LET L == LeaseMs(m) \div 1000 IN
+             /\ L >= 8 /\ L < 1000000
+             /\ \/ m.t1 = -1 /\ m.t2 = -1
+                \/ m.t1 >= 0 /\ m.t2 >= 0 /\ m.t1 + 1 < m.t2 /\ m.t2 < L
 \* fold over received messages: did a valid ACK arrive, and until when does the newest one grant the address
 RECURSIVE RxFold(_, _, _, _)
 RxFold(rx, a, xid, sent) ==
   IF rx = <<>> THEN a
   ELSE LET m == Head(rx) IN
-       IF IsDhcp(m) /\ ValidAck(m, xid, sent) THEN RxFold(Tail(rx), [good |-> TRUE, until |-> IF LeaseMs(m) >= 1000000000 THEN -1 ELSE a.now + LeaseMs(m), now |-> a.now], xid, sent)
+       IF IsDhcp(m) /\ ValidAck(m, xid, sent) THEN RxFold(Tail(rx), [good |-> TRUE, until |-> IF LeaseMs(m) >= 1000000000 THEN -1 ELSE a.now + LeaseMs(m), now |-> a.now, strict |-> Strict(m)], xid, sent)
        ELSE RxFold(Tail(rx), a, xid, sent)
 \* fold over transmitted messages: newest REQUEST's xid, solicitation seen, renew/rebind order
 RECURSIVE TxFold(_, _)
@@ -54,8 +61,9 @@ Step ==
             /\ Flush
             /\ run' = r.run /\ cfg' = r.cfg /\ viol' = <<>> /\ nruns' = nruns + 1 /\ hits' = hits
             /\ cfgd' = FALSE /\ leaseEnd' = -1 /\ reqXid' = <<-1, -1>> /\ reqSent' = FALSE /\ goodAck' = FALSE /\ lastSol' = 0 /\ rebound' = FALSE
+            /\ renewTried' = FALSE /\ strictLease' = FALSE
        [] r.ev = "poll" ->
-            LET rxa == RxFold(r.rx, [good |-> FALSE, until |-> leaseEnd, now |-> r.now], reqXid, reqSent)
+            LET rxa == RxFold(r.rx, [good |-> FALSE, until |-> leaseEnd, now |-> r.now, strict |-> strictLease], reqXid, reqSent)
                 txa == TxFold(r.out, [xid |-> reqXid, sent |-> reqSent, sol |-> FALSE, renew |-> FALSE, rebind |-> IF rxa.good THEN FALSE ELSE rebound, badorder |-> FALSE])
                 ga == goodAck \/ rxa.good
                 cfgd2 == IF r.event = "configured" THEN TRUE ELSE IF r.event = "deconfigured" THEN FALSE ELSE cfgd
@@ -64,9 +72,14 @@ Step ==
                 h3 == IF cfgd2 /\ rxa.until # -1 /\ (r.pa = -1 \/ r.pa > rxa.until) THEN << <<l, "H3", r.pa, rxa.until, IF r.pa # -1 /\ r.pa - rxa.until <= 1000 THEN "discovery-silence" ELSE "other">> >> ELSE <<>>
                 h4 == IF txa.badorder THEN << <<l, "H4", "renew-after-rebind", r.now>> >>
                       ELSE IF cfgd /\ leaseEnd # -1 /\ (txa.renew \/ (txa.rebind /\ ~rebound)) /\ r.now >= leaseEnd THEN << <<l, "H4", "after-expiry", r.now>> >> ELSE <<>>
+                \* H4 (order): within one lease, rebinding is preceded by a renewal attempt (a unicast REQUEST, or the
+                \* neighbour discovery for the server that has to come first)
+                rebindNow == txa.rebind /\ ~(IF rxa.good THEN FALSE ELSE rebound)
+                tried == txa.renew \/ ArpOut(r.out) \/ (IF rxa.good THEN FALSE ELSE renewTried)
+                h4b == IF cfgd /\ rebindNow /\ ~tried /\ rxa.strict /\ ~rxa.good THEN << <<l, "H4", "rebind-without-renewal", r.now>> >> ELSE <<>>
                 h5 == IF ~cfgd2 /\ (r.pa = -1 \/ r.pa - r.now > cfg.bound) THEN << <<l, "H5", r.now, r.pa>> >> ELSE <<>>
                 q2 == IF r.rx = <<>> /\ r.out = <<>> /\ r.pa # -1 /\ r.pa <= r.now THEN << <<l, "Q2", r.now, r.pa, IF r.pa = 0 THEN "reset-pass" ELSE "other">> >> ELSE <<>>
-            IN /\ viol' = AddAll(viol, h1 \o h2 \o h3 \o h4 \o h5 \o q2)
+            IN /\ viol' = AddAll(viol, h1 \o h2 \o h3 \o h4 \o h4b \o h5 \o q2)
                /\ cfgd' = cfgd2
                /\ leaseEnd' = rxa.until
                /\ reqXid' = txa.xid /\ reqSent' = txa.sent
@@ -74,14 +87,16 @@ Step ==
                /\ goodAck' = IF r.event = "deconfigured" THEN FALSE ELSE ga
                /\ rebound' = IF rxa.good \/ r.event # "none" THEN FALSE ELSE txa.rebind
                /\ lastSol' = IF txa.sol THEN r.now ELSE lastSol
+               /\ renewTried' = IF r.event # "none" THEN FALSE ELSE tried
+               /\ strictLease' = rxa.strict
                /\ hits' = [hits EXCEPT !["H1"] = @ + (IF r.event = "configured" THEN 1 ELSE 0), !["H2"] = @ + (IF cfgd2 THEN 1 ELSE 0),
                                        !["H3"] = @ + (IF cfgd2 THEN 1 ELSE 0), !["H4"] = @ + (IF txa.renew \/ txa.rebind THEN 1 ELSE 0),
                                        !["H5"] = @ + (IF cfgd2 THEN 0 ELSE 1), !["Q2"] = @ + (IF r.rx = <<>> /\ r.out = <<>> THEN 1 ELSE 0)]
                /\ UNCHANGED <<run, cfg, nruns>>
        [] r.ev = "panic" ->
             /\ viol' = Add(viol, <<l, "PANIC", r.msg>>) /\ hits' = [hits EXCEPT !["PANIC"] = @ + 1]
-            /\ UNCHANGED <<run, cfg, nruns, cfgd, leaseEnd, reqXid, reqSent, goodAck, lastSol, rebound>>
-       [] OTHER -> UNCHANGED <<run, cfg, viol, hits, nruns, cfgd, leaseEnd, reqXid, reqSent, goodAck, lastSol, rebound>>
+            /\ UNCHANGED <<run, cfg, nruns, cfgd, leaseEnd, reqXid, reqSent, goodAck, lastSol, rebound, renewTried, strictLease>>
+       [] OTHER -> UNCHANGED <<run, cfg, viol, hits, nruns, cfgd, leaseEnd, reqXid, reqSent, goodAck, lastSol, rebound, renewTried, strictLease>>
 Spec == Init /\ [][Step]_vars
 Final == l = Len(Rec) + 1 => /\ Flush
                              /\ PrintT(<<"FINAL", ToJson([events |-> Len(Rec), runs |-> nruns, hits |-> hits])>>)
